@@ -165,7 +165,8 @@ class Lexer:
             try:
                 char = self._source[self._position]
             except IndexError:
-                raise NonTerminatedString("", self._position, self._source)
+                raise NonTerminatedString(
+                    "Unterminated string", self._position, self._source)
 
             self._position += 1
 
@@ -175,7 +176,8 @@ class Lexer:
             elif char == "\\":
                 acc.append(self._read_escape_sequence())
             elif char in "\n\r":
-                raise NonTerminatedString("", self._position - 1, self._source)
+                raise NonTerminatedString(
+                    "Unterminated string", self._position - 1, self._source)
             elif not (char >= " " or char == "\t"):
                 raise InvalidCharacter(char, self._position - 1, self._source)
             else:
@@ -190,7 +192,8 @@ class Lexer:
             try:
                 char = self._source[self._position]
             except IndexError:
-                raise NonTerminatedString("", self._position, self._source)
+                raise NonTerminatedString(
+                    "Unterminated string", self._position, self._source)
 
             if self._source[self._position : self._position + 3] == '"""':
                 self._position += 3
@@ -218,7 +221,8 @@ class Lexer:
         try:
             char = self._source[self._position]
         except IndexError:
-            raise NonTerminatedString("", self._position + 1, self._source)
+            raise NonTerminatedString(
+                    "Unterminated string", self._position + 1, self._source)
 
         self._position += 1
 
@@ -240,7 +244,8 @@ class Lexer:
             try:
                 char = self._source[self._position]
             except IndexError:
-                raise NonTerminatedString("", self._position + 1, self._source)
+                raise NonTerminatedString(
+                    "Unterminated string", self._position + 1, self._source)
 
             self._position += 1
 
